@@ -23,9 +23,9 @@ pub fn expression(expr: &Expression, env: Option<&Environment>, p: &Interpreter)
         #[cfg(feature = "functions")]
         Expression::FunctionCall(fxn_call) => function_call(fxn_call, env, p),
         #[cfg(feature = "set_comprehensions")]
-        Expression::SetComprehension(set_comp) => set_comprehension(set_comp, p),
+        Expression::SetComprehension(set_comp) => set_comprehension(set_comp, env, p),
         #[cfg(feature = "matrix_comprehensions")]
-        Expression::MatrixComprehension(matrix_comp) => matrix_comprehension(matrix_comp, p),
+        Expression::MatrixComprehension(matrix_comp) => matrix_comprehension(matrix_comp, env, p),
         Expression::Match(match_expr) => match_expression(match_expr, env, p),
         #[cfg(feature = "state_machines")]
         Expression::FsmPipe(fsm_pipe) => crate::state_machines::execute_fsm_pipe(fsm_pipe, env, p),
@@ -99,9 +99,11 @@ pub fn pattern_match_value(pattern: &Pattern, value: &Value, env: &mut Environme
 fn comprehension_environments(
     qualifiers: &[ComprehensionQualifier],
     comprehension_id: u64,
+    env: Option<&Environment>,
     p: &Interpreter,
 ) -> MResult<(Vec<Environment>, Interpreter)> {
-    let mut envs: Vec<Environment> = vec![HashMap::new()];
+    // A comprehension nested in a match arm, a function body or another comprehension sees the names bound there.
+    let mut envs: Vec<Environment> = vec![env.cloned().unwrap_or_default()];
     let mut new_p = p.clone();
     new_p.id = comprehension_id;
     new_p.clear_plan();
@@ -391,9 +393,9 @@ register_descriptor! {
 }
 
 #[cfg(feature = "set_comprehensions")]
-pub fn set_comprehension(set_comp: &SetComprehension, p: &Interpreter) -> MResult<Value> {
+pub fn set_comprehension(set_comp: &SetComprehension, env: Option<&Environment>, p: &Interpreter) -> MResult<Value> {
     let comprehension_id = hash_str(&format!("{:?}", set_comp));
-    let (envs, new_p) = comprehension_environments(&set_comp.qualifiers, comprehension_id, p)?;
+    let (envs, new_p) = comprehension_environments(&set_comp.qualifiers, comprehension_id, env, p)?;
     let mut values = Vec::new();
     for env in envs {
         let val = expression(&set_comp.expression, Some(&env), &new_p)?;
@@ -421,9 +423,9 @@ pub fn set_comprehension(set_comp: &SetComprehension, p: &Interpreter) -> MResul
 }
 
 #[cfg(feature = "matrix_comprehensions")]
-pub fn matrix_comprehension(matrix_comp: &MatrixComprehension, p: &Interpreter) -> MResult<Value> {
+pub fn matrix_comprehension(matrix_comp: &MatrixComprehension, env: Option<&Environment>, p: &Interpreter) -> MResult<Value> {
     let comprehension_id = hash_str(&format!("{:?}", matrix_comp));
-    let (envs, new_p) = comprehension_environments(&matrix_comp.qualifiers, comprehension_id, p)?;
+    let (envs, new_p) = comprehension_environments(&matrix_comp.qualifiers, comprehension_id, env, p)?;
     let mut values = Vec::new();
     for env in envs {
         values.push(expression(&matrix_comp.expression, Some(&env), &new_p)?);
